@@ -194,3 +194,22 @@ Example C01_unpar_nonvacuous :
   /\ map (fun rq => group_pos 1 4 1 9 (fst rq) (snd rq)) [(ROther, (1, 0, 1, 9)); (RSelf, (1, 4, 1, 9)); (RInner, (1, 8, 1, 9))]%Z
   = [(1, 0, 1, 11); (1, 5, 1, 10); (1, 9, 1, 10)]%Z.
 Proof. vm_compute. split; reflexivity. Qed.
+
+(* the same for delimiters that belong to the node: _undelimit_node (flags TRANSLATED) after _delimit_node *)
+Theorem C01_undelimit_undoes_delimit_on_every_node : forall ls cs le ce l c el ec, pos_lt ls cs le ce = true ->
+  let e := (ce + b2z (le =? ls))%Z in
+  undelimit_pos ls cs le e RSelf (delimit_pos ls cs le ce RSelf (ls, cs, le, ce)) = (ls, cs, le, ce)
+  /\ (pos_lt l c el ec = true -> pos_le ls cs l c = true -> pos_le el ec le ce = true ->
+      undelimit_pos ls cs le e RInner (delimit_pos ls cs le ce RInner (l, c, el, ec)) = (l, c, el, ec))
+  /\ (pos_lt l c el ec = true -> pos_le le ce l c = true \/ pos_le el ec ls cs = true ->
+      undelimit_pos ls cs le e ROther (delimit_pos ls cs le ce ROther (l, c, el, ec)) = (l, c, el, ec))
+  /\ (pos_le l c ls cs = true -> pos_le le ce el ec = true ->
+      undelimit_pos ls cs le e ROther (delimit_pos ls cs le ce ROther (l, c, el, ec)) = (l, c, el, ec)).
+Proof.
+  intros ls cs le ce l c el ec HT e. repeat split.
+  - now apply undelimit_delimit_self.
+  - intros; now apply undelimit_delimit_inner.
+  - intros Hne [H|H]; [now apply undelimit_delimit_after | now apply undelimit_delimit_before].
+  - intros; now apply undelimit_delimit_ancestors.
+Qed.
+Print Assumptions C01_undelimit_undoes_delimit_on_every_node.
